@@ -27,7 +27,11 @@ def run(P, rep, tier):
                        '. Round 4 adds: argument token lists are shared and stay untouched (R09.12), placemarker handling of ## with empty operands on a '
                        'sub-language of replacement lists (R09.13), ## in object-like macros (R09.14), an empty replacement leaves the following token '
                        'alone (R09.15), replacement results are never directives (R09.16), and the token boundaries (pp-number, identifier, #, ##, ...) '
-                       'macro replacement works on, by running one round of the tokenizer loop on concrete texts (R09.17).')
+                       'macro replacement works on, by running one round of the tokenizer loop on concrete texts (R09.17). Round 5 adds R09.18: the white space '
+                       '(has_space) of every token that replacement produces, copies, splices or passes on, as a later # spells it - the has_space obligations of '
+                       'R19.2 (C19) re-issued, plus: non-first tokens of copied lists keep their flag (subst, the list copier, read_macro_arg_one, paste_objlike, '
+                       'append, preprocess2 pass-through, expand_macro), the first token of a __VA_OPT__ group, the source of the flag of the token handed back '
+                       '(the macro NAME), and the separator after an invocation that expands to nothing.')
     rep.assumptions += ['calloc succeeds', 'loops over token lists are analysed for 0..2 generic iterations',
                         'tokenize() returns a NUL/EOF-terminated token list', 'clang 14 typed AST']
     shared = {}
@@ -421,6 +425,38 @@ def _only_first_token_stamped(P, u, rep, it, paths):
                      {'builtin': ' dynamic', 'objlike': 'n object-like', 'funclike': ' function-like'}[kind], _hs_text(e[4]), strip_ids(e[1].label or 'a token')), where, facts)
         if not bad:
             A.ob('R09.18', '%s:%s:%s-only-the-first-token-is-stamped' % (U, fn, kind), True, '', where, facts)
+        # whose white space the token handed back takes: the macro NAME's (an invocation extends to the closing parenthesis,
+        # and every token of it but the name is a tempting wrong source)
+        name = ctx.tok
+        nf = {f: name.fields.get(f) if f in name.fields else None for f in ('at_bol', HS)}
+        rs = [e for e in ctx.events if e[0] == 'fstore' and e[2] == HS and e[1] is R]
+        from ..lib_c09x import replacement_certainly_empty
+        if rs and isinstance(rs[-1][4], View) and not isinstance(it.settle(rs[-1][4]), int):
+            v = rs[-1][4]
+            own = isinstance(nf[HS], View) and v.cell is nf[HS].cell and v.tag == 'id'
+            if own or v.cell.label.endswith(('.has_space', '.at_bol')):
+                A.ob('R09.18', '%s:%s:%s-first-token-has_space-is-the-macro-name-s' % (U, fn, kind), own,
+                     'the token that expand_macro hands back takes %s as its has_space instead of the flag of the macro name: the replacement is spelled by a later # with the white space that stood before another token of the invocation (`return ID(0);` -> "return0;", `(ID(a ))` -> "( a)")' % _hs_text(v), where, facts)
+        if kind != 'builtin' and replacement_certainly_empty(it, u, ctx):
+            # nothing replaces the invocation: the token after it is apart from what precedes iff the macro name was
+            N = None
+            for e in ctx.events:
+                if e[0] == 'call' and e[1] == 'append' and len(e[2]) == 2:
+                    N = as_obj(it, e[2][1])
+            st = [e for e in ctx.events if e[0] == 'fstore' and e[2] == HS and (e[1] is R or e[1] is N)]
+            if any(not isinstance(it.settle(e[4]), int) for e in st):
+                continue        # R09.15 speaks about such a store
+            sets = any(it.settle(e[4]) == 1 and _kept(it, e[3], e[4]) != 'kept' for e in st)
+            apart = any(isinstance(x, Obj) and HS in x.fields and it.settle(x.fields[HS]) == 1 and isinstance(it.settle(x.fields[HS]), int) for x in (R, N))
+            nv = {f: it.settle(v_) if v_ is not None else None for f, v_ in nf.items()}
+            had = any(isinstance(x, int) and x == 1 for x in nv.values())
+            had_not = all(isinstance(x, int) and x == 0 for x in nv.values())
+            if sets:
+                A.ob('R09.18', '%s:%s:%s-separator-after-empty-replacement-only-for-white-space-before-the-name' % (U, fn, kind), had,
+                     'an invocation of a %s macro expands to nothing and the token after the invocation is given has_space on a path that has not established that the macro NAME was preceded by white space (at_bol / has_space of the name are %s): the decision is taken from another token (`+E( )b` with an empty E must stringize as "+b", `+ E()b` as "+ b")' % (kind, nv), where, facts)
+            else:
+                A.ob('R09.18', '%s:%s:%s-white-space-before-the-name-survives-an-empty-replacement' % (U, fn, kind), had_not or apart,
+                     'an invocation of a %s macro expands to nothing and the token after the invocation keeps its own has_space on a path that has not established that the macro name had NO white space before it (at_bol / has_space of the name are %s): `+ E +` with an empty E is spelled "++" by a later #' % (kind, nv), where, facts)
     A.flush()
 
 
@@ -459,6 +495,8 @@ def _splice_flags(P, u, rep, it, paths):
                 v = it.settle(x[4])
                 if x[2] == 'has_space' and isinstance(v, int) and v == 1:
                     continue
+                if _kept(it, x[3], x[4]) == 'kept':
+                    continue        # writes back what the token had on this path
                 bad = True
                 inherits = isinstance(x[4], View) and x[4].cell.label.startswith('tok.')
                 A.ob('R09.15', '%s:%s:%s-%s-of-token-after-empty-replacement-written' % (U, fn, kind, x[2]), False,
@@ -478,7 +516,7 @@ def r_result_white_space(P, u, rep):
     flag of every token that expand_macro/subst create, copy or splice is part of what 6.10.3.2 lets a program observe."""
     from ..report import Report, reissue
     from . import c19
-    rep.rule('R09.18', 'white space as # sees it (C11 6.10.3.2p2: each occurrence of white space between the tokens of the operand becomes one space; the operand may itself be the result of replacement, `#define XSTR(x) STR(x)`): every token that macro replacement produces carries in has_space the white space of the token it stands for - the first token of an expansion that of the macro NAME (not of the closing parenthesis or any other token of the invocation), the first token of a substituted argument / the stringized / the pasted token that of the parameter, # or left operand in the replacement list, the first token of a __VA_OPT__ group that of the __VA_OPT__ token; every other token is copied with the flag it was read with, in the argument lists read_macro_arg_one collects as well as in replacement lists', floor=24)
+    rep.rule('R09.18', 'white space as # sees it (C11 6.10.3.2p2: each occurrence of white space between the tokens of the operand becomes one space; the operand may itself be the result of replacement, `#define XSTR(x) STR(x)`): every token that macro replacement produces carries in has_space the white space of the token it stands for - the first token of an expansion that of the macro NAME (not of the closing parenthesis or any other token of the invocation), the first token of a substituted argument / the stringized / the pasted token that of the parameter, # or left operand in the replacement list, the first token of a __VA_OPT__ group that of the __VA_OPT__ token; every other token is copied with the flag it was read with, in the argument lists read_macro_arg_one collects as well as in replacement lists, by append() and on the way through preprocess2; an invocation that expands to nothing separates the token after it from what precedes exactly when the macro name was preceded by white space', floor=40)
     sub = Report('C19', rep.tier, rep.seed)
     why = 'the text produced by # for an operand that contains this token differs from the white space the program wrote: '
     for f in (lambda: c19.r_copy(P, sub), lambda: c19.r_expand(P, sub, True), lambda: c19.r_subst(P, sub, True), lambda: c19.r_subst_repeat(P, sub)):
@@ -492,9 +530,39 @@ def r_result_white_space(P, u, rep):
         return k.startswith('R19.2:%s:' % U) and not k.endswith('at_bol')
     reissue(rep, 'R09.18', sub, why, keep=keep)
     _copies_keep_has_space(P, u, rep)
+    _stream_keeps_has_space(P, u, rep)
 
 
 HS = 'has_space'
+
+
+def _stream_keeps_has_space(P, u, rep):
+    """R09.18 on preprocess2: a token that is neither a macro invocation nor part of a directive is passed on with the
+    white space it came with (arguments are expanded by preprocess2 before they are substituted, so every token of a
+    two-level stringification has been through this path)"""
+    from ..lib_c09y import stream_paths
+    fn = 'preprocess2'
+    it, paths = stream_paths(P, u, fn)
+    A = Agg(rep)
+    where = '%s:%d' % (U, u.fn(fn).line)
+    for ctx, out in paths:
+        facts = {'path': ctx.trail}
+        bad = False
+        for e in ctx.events:
+            if e[0] != 'fstore' or e[2] != HS or not isinstance(e[1], Obj) or not e[1].meta.get('input'):
+                continue
+            verdict = _kept(it, e[3], e[4])
+            if verdict == 'kept':
+                continue
+            bad = True
+            if verdict == 'unknown':
+                rep.undecided('R09.18', '%s:%s:passed-token-has_space-kept' % (U, fn), 'has_space of a token that is passed through is written with a value the rule cannot relate to its old value (%s)' % _hs_text(e[4]), where=where)
+                continue
+            A.ob('R09.18', '%s:%s:passed-token-has_space-kept' % (U, fn), False,
+                 '%s stores %s into has_space of a token that is neither expanded nor part of a directive: the white space of ordinary text changes on its way through the preprocessor, and # applied to an argument that has been expanded (XSTR(a + b) -> STR(a + b)) spells it differently' % (fn, _hs_text(e[4])), where, facts)
+        if not bad:
+            A.ob('R09.18', '%s:%s:passed-token-has_space-kept' % (U, fn), True, '', where, facts)
+    A.flush()
 
 
 def _hs_store_verdict(it, ctx, tok, src):
@@ -532,7 +600,7 @@ def _copies_keep_has_space(P, u, rep):
     A = Agg(rep)
     w0 = '%s:%d' % (U, u.fn(fn).line)
     eof = u.enums.get('TK_EOF')
-    seen = {'argument-rest': 0, 'list-handed-to-preprocess2': 0, 'expanded-rest': 0, 'replacement-list-token': 0, 'va-opt-group': 0}
+    seen = {'argument-rest': 0, 'list-handed-to-preprocess2': 0, 'expanded-rest': 0, 'body-token': 0, 'va-opt-group': 0}
     for ctx, out in paths:
         if out[0] != 'ret':
             continue
@@ -582,7 +650,7 @@ def _copies_keep_has_space(P, u, rep):
                     continue    # right of a ##: stands where the (empty) left operand stood: R19.2 paste-empty-lhs-result
                 if id(c) in pasted_into:
                     continue
-                case = 'replacement-list-token'
+                case = 'body-token'
                 what = 'an ordinary token of the replacement list'
                 demo = '`#define P(x) x , y` / XSTR(P(1)) must give "1 , y"'
             else:
